@@ -31,4 +31,19 @@ __CPROVER_ensures(g_mc_idx < n ==> ((unsigned char*)dst)[g_mc_idx] == ((const un
 ;
 #endif
 
+/* ------------------------------------------------- secp256k1_count_bits_set (PROVED: C11.count_bits) */
+#ifdef EL_COUNT_BITS
+/* specification: number of set bits in data[0..count), count <= 32 */
+static inline size_t el_popcount(const unsigned char *data, size_t count) {
+    size_t r = 0, i; unsigned b;
+    for (i = 0; i < 32; i++) if (i < count) for (b = 0; b < 8; b++) r += (data[i] >> b) & 1;
+    return r;
+}
+static size_t secp256k1_count_bits_set(const unsigned char *data, size_t count)
+__CPROVER_requires(count <= 32 && (count == 0 || __CPROVER_r_ok(data, count)))
+__CPROVER_assigns()
+__CPROVER_ensures(__CPROVER_return_value == el_popcount(data, count))
+;
+#endif
+
 #endif
